@@ -139,10 +139,36 @@ def run_case(ctx, rng, job):
     ctx.op('module', modname, shapes)
     entries = []          # for the second process
     protos = list(range(0, pickle.HIGHEST_PROTOCOL + 1))
+    # class-level provides-declarations changed after the fact, in one or several steps
+    cshape = {}
+    for cname in classes:
+        cls = getattr(mod, cname)
+        how = rng.choice(['asis', 'asis', 'direct', 'also', 'also_twice', 'nolonger'])
+        sel = [getattr(mod, i) for i in rng.sample(ifs, rng.randint(1, min(3, len(ifs))))]
+        if how == 'direct':
+            directlyProvides(cls, *sel)
+        elif how == 'also':
+            alsoProvides(cls, *sel)
+        elif how == 'also_twice':
+            alsoProvides(cls, sel[0])
+            alsoProvides(cls, *sel)
+        elif how == 'nolonger':
+            alsoProvides(cls, *sel)
+            try:
+                noLongerProvides(cls, sel[0])
+            except ValueError:
+                pass
+        cshape[cname] = ('provider+' if 'provider' in shapes[cname] else '') + how
+        if how != 'asis':
+            ctx.op('class-provides', cname, how, nm(sel))
 
     def rt(x, p):
-        data = pickle.dumps(x, p)
-        return pickle.loads(data), data
+        try:
+            data = pickle.dumps(x, p)
+            return pickle.loads(data), data
+        except Exception as e:
+            # (raised inside the pickle machinery, not in a frame of the library: still the library's doing)
+            ctx.violation('pickle-roundtrip-raised', {'object': repr(x)[:200], 'proto': p, 'error': repr(e)[:300]})
 
     for p in protos:
         for iname in ifs:
@@ -173,6 +199,7 @@ def run_case(ctx, rng, job):
             u, data = rt(cp, p)
             ctx.ev()
             ctx.count('roundtrips[class-provides:%s]' % ('provider' if 'provider' in shapes[cname] else 'plain'))
+            ctx.count('roundtrips[class-provides-history:%s]' % cshape[cname])
             if flat(u) != flat(cp) or list(u) != list(cp) or not isinstance(u, ClassProvides):
                 ctx.violation('class-provides-differs', {'cls': cname, 'proto': p, 'got': flat(u), 'expected': flat(cp)})
             if u is cp and (u != cp or hash(u) != hash(cp)):
